@@ -850,7 +850,8 @@ impl Server {
                                 needs_immediate_flush = true;
                             }
                             // Pub/sub commands need immediate response for proper timing coordination
-                            "SUBSCRIBE" | "UNSUBSCRIBE" | "PSUBSCRIBE" | "PUNSUBSCRIBE" => {
+                            // (SYNC / PSYNC write the dataset straight into the buffer as well)
+                            "SUBSCRIBE" | "UNSUBSCRIBE" | "PSUBSCRIBE" | "PUNSUBSCRIBE" | "SYNC" | "PSYNC" => {
                                 needs_immediate_flush = true;
                                 // Their handlers write the confirmations straight into the connection's
                                 // buffer: the replies collected so far in this batch must go out first,
